@@ -33,6 +33,12 @@ package main
 //	        its own program harness/cmd/c14thrift (the thriftproto import changes global configuration).
 //	redial  a dialled TCP session with redial enabled whose connection the server keeps closing while other
 //	        goroutines use the session (socket.Reset against readers of the embedded connection).
+//	fresh   FIRST use of lazily created per-session state: a series of brand-new links; on each one, released
+//	        by one start barrier immediately after the sessions exist, several goroutines make the first
+//	        Swap().Store/Load/Len on the shared Session values of both ends while back-to-back calls are
+//	        in flight whose handlers make their first ctx.Session().Swap().Store (and the read loops prepare
+//	        the next contexts: SwapLen), next to first SetID / ID / age setters. Oracle of its own: every
+//	        entry stored through Session.Swap() is still there afterwards (c14:swap-entry-lost).
 
 import (
 	"bytes"
@@ -142,6 +148,7 @@ func c14Gen(r *hx.R, tier string, out *hx.Out) []string {
 			add("listen")
 			add("thrift")
 			add("redial")
+			add("fresh")
 		}
 		return ls
 	}
@@ -150,6 +157,7 @@ func c14Gen(r *hx.R, tier string, out *hx.Out) []string {
 	add("listen")
 	add("thrift")
 	add("redial")
+	add("fresh")
 	return ls
 }
 
@@ -222,6 +230,9 @@ func c14Run(line string, out *hx.Out) (string, bool) {
 			}
 			if strings.HasPrefix(tok, "bad=") && tok != "bad=0" {
 				out.Violate(line, "token-integrity", "a reply/push carried a token other than the one sent: "+o, "c14:token-mismatch:"+sc)
+			}
+			if strings.HasPrefix(tok, "lost=") && tok != "lost=0" {
+				out.Violate(line, "swap-entries-kept", "entries stored through Session.Swap() by concurrent first users of a fresh session are gone afterwards (the swap map was created more than once): "+o, "c14:swap-entry-lost")
 			}
 		}
 	}
@@ -381,8 +392,14 @@ func (c *C14Svc) Echo(arg *string) (string, *erpc.Status) {
 
 type C14Note struct{ erpc.PushCtx }
 
+// Mark makes the handler's (possibly the session's first) access to the SESSION swap.
+func (c *C14Svc) Mark(arg *string) (string, *erpc.Status) {
+	c.Session().Swap().Store(*arg, true)
+	return *arg, nil
+}
+
 var c14Pushed sync.Map
-var c14PushCount, c14Ops, c14Bad int64
+var c14PushCount, c14Ops, c14Bad, c14Lost int64
 
 func (c *C14Note) Note(arg *string) *erpc.Status {
 	c14Pushed.Store(*arg, true)
@@ -399,6 +416,7 @@ func c14NewPeer(cfg erpc.PeerConfig) erpc.Peer {
 
 const (
 	c14Echo = "/c14_svc/echo"
+	c14Mark = "/c14_svc/mark"
 	c14Note = "/c14_note/note"
 )
 
@@ -417,13 +435,15 @@ func c14StressRun(line string, out *hx.Out) (string, bool) {
 			done <- c14Listen(r)
 		case "redial":
 			done <- c14Redial(r)
+		case "fresh":
+			done <- c14Fresh(r, f["tier"])
 		default:
 			done <- "unknown-scenario"
 		}
 	}()
 	select {
 	case s := <-done:
-		return fmt.Sprintf("%s ops=%d bad=%d", s, atomic.LoadInt64(&c14Ops), atomic.LoadInt64(&c14Bad)), true
+		return fmt.Sprintf("%s ops=%d bad=%d lost=%d", s, atomic.LoadInt64(&c14Ops), atomic.LoadInt64(&c14Bad), atomic.LoadInt64(&c14Lost)), true
 	case <-time.After(120 * time.Second):
 		fmt.Fprintln(os.Stderr, "c14stress: scenario timed out")
 		os.Exit(3)
@@ -610,6 +630,118 @@ func c14Sess(r *hx.R, tier string, midClose bool) string {
 	go func() { defer cwg.Done(); srv.Close() }()
 	cwg.Wait()
 	return "sess-done"
+}
+
+// c14Fresh: the first accesses to lazily created per-session state happen concurrently, on many fresh links.
+func c14Fresh(r *hx.R, tier string) string {
+	rounds := 12 + r.Intn(6)
+	if tier == "thorough" {
+		rounds = 40 + r.Intn(20)
+	}
+	srv := c14NewPeer(erpc.PeerConfig{CountTime: true})
+	cli := c14NewPeer(erpc.PeerConfig{CountTime: true})
+	for i := 0; i < rounds; i++ {
+		l := connect(cli, srv, fmt.Sprintf("c14f%d", i))
+		if l.A == nil || l.B == nil {
+			return "connect-failed"
+		}
+		// what takes part in this round (always at least two first users of one session's swap)
+		nCalls := r.Intn(4) // back-to-back A->B calls whose handlers touch B's session swap
+		nBack := r.Intn(3)  // B->A calls: handlers touch A's session swap
+		gA := r.Intn(3)     // goroutines sharing the Session value l.A
+		gB := r.Intn(3)     // goroutines sharing the Session value l.B
+		if nCalls+gB < 2 {
+			gB = 2 - nCalls
+		}
+		if nBack+gA < 2 && r.Intn(2) == 0 {
+			gA = 2 - nBack
+		}
+		withIDs := r.Intn(3) == 0
+		type stored struct {
+			sess erpc.Session
+			key  interface{}
+		}
+		var mu sync.Mutex
+		var kept []stored
+		keep := func(s erpc.Session, k interface{}) { mu.Lock(); kept = append(kept, stored{s, k}); mu.Unlock() }
+		start := make(chan struct{})
+		var wg sync.WaitGroup
+		spawn := func(fn func()) {
+			wg.Add(1)
+			go func() {
+				defer wg.Done()
+				defer func() { recover() }()
+				<-start
+				fn()
+			}()
+		}
+		call := func(from, to erpc.Session, tok string) {
+			var reply string
+			cmd := from.Call(c14Mark, tok, &reply)
+			atomic.AddInt64(&c14Ops, 1)
+			if cmd.StatusOK() {
+				if reply != tok {
+					atomic.AddInt64(&c14Bad, 1)
+				}
+				keep(to, tok)
+			}
+		}
+		for k := 0; k < nCalls; k++ {
+			tok := fmt.Sprintf("fc-%d-%d", i, k)
+			spawn(func() { call(l.A, l.B, tok) })
+		}
+		for k := 0; k < nBack; k++ {
+			tok := fmt.Sprintf("fb-%d-%d", i, k)
+			spawn(func() { call(l.B, l.A, tok) })
+		}
+		direct := func(s erpc.Session, tag string, k int) {
+			switch k % 3 {
+			case 0:
+				key := fmt.Sprintf("%s-%d-%d", tag, i, k)
+				s.Swap().Store(key, k)
+				keep(s, key)
+			case 1:
+				s.Swap().Load("nothing")
+				key := fmt.Sprintf("%s-%d-%d", tag, i, k)
+				s.Swap().Store(key, k)
+				keep(s, key)
+			default:
+				_ = s.Swap().Len()
+			}
+			atomic.AddInt64(&c14Ops, 1)
+		}
+		for k := 0; k < gA; k++ {
+			k := k
+			spawn(func() { direct(l.A, "ga", k) })
+		}
+		for k := 0; k < gB; k++ {
+			k := k
+			spawn(func() { direct(l.B, "gb", k) })
+		}
+		if withIDs {
+			spawn(func() { l.B.SetID(fmt.Sprintf("c14-fresh-b-%d", i)); _ = l.B.ID() })
+			spawn(func() { _ = l.A.ID(); l.A.(c14Ager).SetContextAge(time.Hour); _ = l.A.SessionAge() })
+		}
+		close(start)
+		fin := make(chan struct{})
+		go func() { wg.Wait(); close(fin) }()
+		select {
+		case <-fin:
+		case <-time.After(30 * time.Second):
+			return "fresh-hung"
+		}
+		for _, st := range kept {
+			if _, ok := st.sess.Swap().Load(st.key); !ok {
+				atomic.AddInt64(&c14Lost, 1)
+			}
+		}
+	}
+	var cwg sync.WaitGroup
+	cwg.Add(2)
+	go func() { defer cwg.Done(); cli.Close() }()
+	go func() { defer cwg.Done(); srv.Close() }()
+	cwg.Wait()
+	return "fresh-done"
 }
 
 // c14FreePort asks the kernel for a free loopback port (a failed listen is fatal inside teleport).
